@@ -164,7 +164,7 @@ def cmp_truth(op, region):
 FLIP = {"<": ">", ">": "<", "<=": ">=", ">=": "<=", "==": "==", "!=": "!="}
 
 
-def region_walk(view, decide, start=0):
+def region_walk(view, decide, start=0, cut_edges=()):
     """Blocks reachable from `start` when each switch whose condition `decide(block, cond)` resolves
     to True/False follows only that edge; undecided switches follow every edge."""
     conds = {b: c for b, c, _ in switch_conds(view)}
@@ -180,7 +180,7 @@ def region_walk(view, decide, start=0):
                 te, fe = cmp_true_false_edges(view, b, c)
                 succs = [e[1] for e in (te if r else fe)]
         for s in succs:
-            if s not in seen:
+            if s not in seen and (b, s) not in cut_edges:
                 seen.add(s)
                 dq.append(s)
     return seen
@@ -351,7 +351,7 @@ def single_var_guard(view, is_x, spec_thresholds, at_of=None):
     return tracked, ths
 
 
-def single_var_walk(view, tracked, x, start=0):
+def single_var_walk(view, tracked, x, start=0, cut_edges=()):
     def decide(b, c):
         t = tracked.get(b)
         if not t:
@@ -359,7 +359,7 @@ def single_var_walk(view, tracked, x, start=0):
         cond, orient, k = t
         op = cond.op if orient == "fwd" else FLIP[cond.op]
         return _num_truth(op, x, k)
-    return region_walk(view, decide, start=start)
+    return region_walk(view, decide, start=start, cut_edges=set(cut_edges))
 
 
 def cond_at(view, c):
